@@ -582,21 +582,39 @@ func ruleWR4(c *Ctx) {
 		fn := c.Name(f)
 		pos := c.Pos(e.Call.Pos())
 		construct := fmt.Sprintf("append-open#%d", i+1)
-		pathCanon := c.canon(e.Path)
+		pathV := e.Path
+		var site ssa.Instruction = e.Call
 		// candidate tail inspections: module helper taking the same path, which opens it read-only and reads at an offset
 		var insp *ssa.Call
-		for _, call := range callsIn(f) {
-			cv, ok := call.(*ssa.Call)
-			if !ok {
-				continue
+		for hop := 0; hop < 3; hop++ {
+			pathCanon := c.canon(pathV)
+			for _, call := range callsIn(f) {
+				cv, ok := call.(*ssa.Call)
+				if !ok {
+					continue
+				}
+				cal := cv.Call.StaticCallee()
+				if cal == nil || !c.InModule(cal) || len(cv.Call.Args) == 0 || c.canon(cv.Call.Args[0]) != pathCanon {
+					continue
+				}
+				if c.readsTailOfParam0(cal) {
+					insp = cv
+				}
 			}
-			cal := cv.Call.StaticCallee()
-			if cal == nil || !c.InModule(cal) || len(cv.Call.Args) == 0 || c.canon(cv.Call.Args[0]) != pathCanon {
-				continue
+			if insp != nil || f.Parent() != nil || len(c.callers[f]) != 1 {
+				break
 			}
-			if c.readsTailOfParam0(cal) {
-				insp = cv
+			// the in-place append split out of the appender (appendEventsInPlace): the decision is taken by its only caller
+			cs := c.callers[f][0]
+			en := env{}
+			for i, prm := range f.Params {
+				if i < len(cs.Call.Common().Args) {
+					en[prm] = cs.Call.Common().Args[i]
+				}
 			}
+			pathV = resolveEnv(pathV, en)
+			site = cs.Call
+			f = cs.Fn
 		}
 		if insp == nil {
 			c.bad(fn, construct+"|tail-inspected", pos, "the bytes appended do not depend on the current tail of the file: a torn fragment left by a killed writer is glued to the next line and every later command fails")
@@ -614,7 +632,7 @@ func ruleWR4(c *Ctx) {
 			continue
 		}
 		pass := edgesWhere(f, func(a Atom, holds bool) bool { return a.Kind == "bool" && strip(a.X) == flag && !holds })
-		okGuard := mustPassEdges(f, e.Call.Block(), pass)
+		okGuard := mustPassEdges(f, site.Block(), pass)
 		c.check(okGuard, fn, construct+"|tail-inspected", pos,
 			"append happens only when "+c.Name(insp.Call.StaticCallee())+" reports a newline-terminated tail",
 			"the O_APPEND open is reachable on the unterminated-tail edge (or without consulting the inspection)")
